@@ -41,7 +41,8 @@ def knee_iou(p, idx):
 def cases(draw, tier):
     c = draw(S.curves(3, 40 if tier == 'quick' else 200,
                       families=['plateau', 'plateau', 'steps', 'mono_dec', 'noise', 'convex', 'pwl_dyadic',
-                                'pwl_rational', 'flat', 'trace', 'repo', 'concave']))
+                                'pwl_rational', 'flat', 'trace', 'repo', 'concave'],
+                      big_n=160 if tier == 'quick' else 600))
     pts = c['pts']
     n = len(pts)
     mode = draw(st.sampled_from(['some', 'some', 'all', 'empty', 'single', 'ends']))
